@@ -96,7 +96,10 @@ func resolveNAT(p *Prog) *natRoles {
 }
 
 func natAnchors(c *Ctx) *natRoles {
+	setUnitExclude()
 	r := resolveNAT(c.P)
+	setUnitExclude(r.out, r.in, r.findOut, r.findIn, r.remove, r.alloc, r.pairMapped, r.pairLocal, r.routerIn,
+		c.P.Func("vnet", "Router", "push"), c.P.Func("vnet", "chunkUDP", "Clone"))
 	if len(r.problems) > 0 {
 		o := c.Obl("R0", natT, "anchors of the NAT are resolved", 1)
 		for _, pr := range r.problems {
@@ -603,13 +606,13 @@ func runC02(c *Ctx) {
 				mu, ok := in.(*ssa.MapUpdate)
 				return ok && isFieldLoad(mu.Map, natT, m) && mu.Value == ssa.Value(creation)
 			}
-			if ok, bad := mustPass(posAfter(creation), func(in ssa.Instruction) bool { return isSuccessReturnOf(in, 1) && retChunkNonNil(in) }, isIns); !ok {
+			if ok, bad := mustPassU(posAfter(creation), func(in ssa.Instruction) bool { return isSuccessReturnOf(in, 1) && retChunkNonNil(in) }, isIns); !ok {
 				o.Fail(bad.Pos(), "a new mapping is not registered in %s on every path to the successful return", m)
 			}
 		}
 	}
 	for _, m := range []string{"outboundMap", "inboundMap"} {
-		if ok, bad := mustPass(entryPos(r.remove), isReturn, func(in ssa.Instruction) bool {
+		if ok, bad := mustPassU(entryPos(r.remove), isReturn, func(in ssa.Instruction) bool {
 			return isCall(in, "builtin.delete") && isFieldLoad(in.(ssa.CallInstruction).Common().Args[0], natT, m)
 		}); !ok {
 			o.Fail(bad.Pos(), "removal does not delete the mapping from %s", m)
@@ -625,7 +628,7 @@ func runC02(c *Ctx) {
 		if pkgOf(f) != "vnet" {
 			continue
 		}
-		for _, in := range findInstrs(f, isRefresh) {
+		for _, in := range findU(f, isRefresh) {
 			o.Site(in.Pos(), "store to expires in %s", fname(f))
 			if fromIn[f] {
 				o.Fail(in.Pos(), "mapping.expires is written in %s, which is reachable from the inbound translation: inbound traffic alone prolongs a mapping", fname(f))
@@ -656,13 +659,13 @@ func runC02(c *Ctx) {
 			start := entryPos(r.findOut)
 			okp := true
 			if leaf.pred != nil {
-				re := reach(start, isRefresh)
+				re := reachU(start, isRefresh)
 				last := leaf.pred.Instrs[len(leaf.pred.Instrs)-1]
 				if re[last] {
 					okp = false
 				}
 			} else {
-				okp, _ = mustPass(start, func(in ssa.Instruction) bool { return in == ret }, isRefresh)
+				okp, _ = mustPassU(start, func(in ssa.Instruction) bool { return in == ret }, isRefresh)
 			}
 			if !okp {
 				helperRefreshes = false
@@ -688,7 +691,7 @@ func runC02(c *Ctx) {
 					ft := fact{Cond: iff.Cond, Val: k == 0, If: iff}
 					if nilFact(ft, func(v ssa.Value) bool { return v == ssa.Value(call) }, false) && len(b.Succs[k].Preds) == 1 {
 						// b.Succs[k] is the entry of the found edge
-						if ok, _ := mustPass(blockStart(b.Succs[k]), func(in ssa.Instruction) bool { return isSuccessReturnOf(in, 1) }, isRefresh); ok {
+						if ok, _ := mustPassU(blockStart(b.Succs[k]), func(in ssa.Instruction) bool { return isSuccessReturnOf(in, 1) }, isRefresh); ok {
 							okCaller = true
 						}
 					}
@@ -741,7 +744,7 @@ func runC02(c *Ctx) {
 			}
 		}
 		// expired edge removes
-		rem := findInstrs(f, func(in ssa.Instruction) bool { cl, ok := in.(*ssa.Call); return ok && cl.Call.StaticCallee() == r.remove })
+		rem := findU(f, func(in ssa.Instruction) bool { cl, ok := in.(*ssa.Call); return ok && cl.Call.StaticCallee() == r.remove })
 		if len(rem) == 0 {
 			o.Fail(f.Pos(), "%s never removes an expired mapping", fname(f))
 		}
@@ -828,7 +831,7 @@ func runC02(c *Ctx) {
 		if pkgOf(f) != "vnet" {
 			continue
 		}
-		for _, in := range findInstrs(f, func(in ssa.Instruction) bool { return isFieldStore(in, natT, "udpPortCounter") }) {
+		for _, in := range findU(f, func(in ssa.Instruction) bool { return isFieldStore(in, natT, "udpPortCounter") }) {
 			st := in.(*ssa.Store)
 			if isFreshBase(st.Addr.(*ssa.FieldAddr).X) {
 				continue
@@ -893,7 +896,7 @@ func runC02(c *Ctx) {
 		o.Fail(r.out.Pos(), "the allocator never succeeds")
 	}
 	// the NAPT source rewrite uses the mapping's mapped address
-	for _, in := range findInstrs(r.out, func(in ssa.Instruction) bool { return isSetAddr(in, "setSourceAddr") }) {
+	for _, in := range findU(r.out, func(in ssa.Instruction) bool { return isSetAddr(in, "setSourceAddr") }) {
 		if hasFact(in, func(ft fact) bool { return r.modeFact(ft, true) }) {
 			continue
 		}
@@ -953,7 +956,7 @@ func runC02(c *Ctx) {
 	pairShape(r.pairLocal, "mappedIPs", "localIPs")
 	oneToOne := func(f *ssa.Function, setter, other, addrMeth string, pair *ssa.Function) {
 		n := 0
-		for _, in := range findInstrs(f, func(in ssa.Instruction) bool { return isSetAddr(in, setter) }) {
+		for _, in := range findU(f, func(in ssa.Instruction) bool { return isSetAddr(in, setter) }) {
 			if !hasFact(in, func(ft fact) bool { return r.modeFact(ft, true) }) {
 				continue
 			}
@@ -986,7 +989,7 @@ func runC02(c *Ctx) {
 		if n != 1 {
 			o.Fail(f.Pos(), "expected one 1:1 %s in %s, found %d", setter, fname(f), n)
 		}
-		for _, in := range findInstrs(f, func(in ssa.Instruction) bool { return isSetAddr(in, other) }) {
+		for _, in := range findU(f, func(in ssa.Instruction) bool { return isSetAddr(in, other) }) {
 			o.Fail(in.Pos(), "%s rewrites the %s", fname(f), strings.TrimPrefix(other, "set"))
 		}
 	}
@@ -1116,7 +1119,7 @@ func runC03(c *Ctx) {
 		return nilFact(ft, func(v ssa.Value) bool { return findCall != nil && v == ssa.Value(findCall) }, false)
 	}
 	nRew := 0
-	for _, in := range findInstrs(IN, func(in ssa.Instruction) bool { return isSetAddr(in, "setDestinationAddr") }) {
+	for _, in := range findU(IN, func(in ssa.Instruction) bool { return isSetAddr(in, "setDestinationAddr") }) {
 		if hasFact(in, func(ft fact) bool { return r.modeFact(ft, true) }) {
 			continue
 		}
@@ -1166,11 +1169,11 @@ func runC03(c *Ctx) {
 				o.Fail(in.Pos(), "translateInbound returns something else than the clone of the datagram")
 			}
 		}
-		if ok, _ := mustPass(entryPos(IN), func(x ssa.Instruction) bool { return x == in }, func(x ssa.Instruction) bool { return isSetAddr(x, "setDestinationAddr") }); !ok {
+		if ok, _ := mustPassU(entryPos(IN), func(x ssa.Instruction) bool { return x == in }, func(x ssa.Instruction) bool { return isSetAddr(x, "setDestinationAddr") }); !ok {
 			o.Fail(in.Pos(), "a successful inbound translation is reachable without a destination rewrite")
 		}
 	}
-	for _, in := range findInstrs(IN, func(in ssa.Instruction) bool { return isSetAddr(in, "setDestinationAddr") || isSetAddr(in, "setSourceAddr") }) {
+	for _, in := range findU(IN, func(in ssa.Instruction) bool { return isSetAddr(in, "setDestinationAddr") || isSetAddr(in, "setSourceAddr") }) {
 		if clone == nil || in.(*ssa.Call).Call.Value != ssa.Value(clone) {
 			o.Fail(in.Pos(), "the address is rewritten on the original chunk, not on the clone")
 		}
@@ -1188,7 +1191,7 @@ func runC03(c *Ctx) {
 		mu, ok := in.(*ssa.MapUpdate)
 		return ok && isFieldLoad(mu.Map, mapT, "filters") && mu.Key == ssa.Value(outPh[0])
 	}
-	for _, in := range findInstrs(OUT, func(in ssa.Instruction) bool {
+	for _, in := range findU(OUT, func(in ssa.Instruction) bool {
 		mu, ok := in.(*ssa.MapUpdate)
 		return ok && isFieldLoad(mu.Map, mapT, "filters")
 	}) {
@@ -1268,7 +1271,7 @@ func runC03(c *Ctx) {
 		}
 	})
 	nPush := 0
-	for _, in := range findInstrs(r.routerIn, func(in ssa.Instruction) bool { return isCall(in, "(*vnet.Router).push") }) {
+	for _, in := range findU(r.routerIn, func(in ssa.Instruction) bool { return isCall(in, "(*vnet.Router).push") }) {
 		nPush++
 		o.Site(in.Pos(), "push")
 		cl := in.(ssa.CallInstruction)
@@ -1291,7 +1294,7 @@ func runC03(c *Ctx) {
 
 	// R7 1:1 unpaired -> error
 	o = c.Obl("R7", fname(IN), "1:1 mode: a destination without a paired local IP is refused with an error", 1)
-	for _, in := range findInstrs(IN, func(in ssa.Instruction) bool { cl, ok := in.(*ssa.Call); return ok && cl.Call.StaticCallee() == r.pairLocal }) {
+	for _, in := range findU(IN, func(in ssa.Instruction) bool { cl, ok := in.(*ssa.Call); return ok && cl.Call.StaticCallee() == r.pairLocal }) {
 		o.Site(in.Pos(), "pair lookup")
 		nilBlk := (*ssa.BasicBlock)(nil)
 		for _, b := range IN.Blocks {
@@ -1305,13 +1308,13 @@ func runC03(c *Ctx) {
 			o.Fail(in.Pos(), "the result of the pair lookup is not tested for nil")
 			continue
 		}
-		if ok, bad := mustPass(blockStart(nilBlk), isReturn, func(x ssa.Instruction) bool {
+		if ok, bad := mustPassU(blockStart(nilBlk), isReturn, func(x ssa.Instruction) bool {
 			ret, ok := x.(*ssa.Return)
 			return ok && !isSuccessReturnOf(ret, 1)
 		}); !ok {
 			_ = bad
 		}
-		for x := range reach(blockStart(nilBlk), nil) {
+		for x := range reachU(blockStart(nilBlk), nil) {
 			if isSuccessReturnOf(x, 1) {
 				o.Fail(x.Pos(), "an unpaired destination is translated successfully")
 			}
